@@ -259,8 +259,13 @@ func ReadPatchString(s string) (Diff, error) {
 			i := len(diff) - 1
 			if diff[i].Path.JsonNode().Equals(e.Path.JsonNode()) {
 				diff[i].Remove = append(diff[i].Remove, e.Remove...)
-				// Must be done in reverse order
-				diff[i].Add = append(e.Add, diff[i].Add...)
+				if n := len(e.Path); n > 0 && e.Path[n-1] == PathElement(PathIndex(-1)) {
+					// Appending ("-"): each add goes after the previous one
+					diff[i].Add = append(diff[i].Add, e.Add...)
+				} else {
+					// Must be done in reverse order
+					diff[i].Add = append(e.Add, diff[i].Add...)
+				}
 			} else {
 				diff = append(diff, e)
 			}
